@@ -252,40 +252,65 @@ impl<S: BuildHasher + Default + Clone + Send + Sync + 'static> ConcurrentSet
         Self: 'x;
 
     fn insert_element(&self, element: Self::Element) -> bool {
-        let read = self.0.read();
-        match &*read {
-            TieredStorage::Small(vec_lock) => {
-                let mut vec = vec_lock.write();
+        {
+            let read = self.0.read();
+            match &*read {
+                TieredStorage::Small(vec_lock) => {
+                    let mut vec = vec_lock.write();
 
-                // Upgrade to large storage if exceed threshold
-                if vec.len() == 32 {
-                    let large_set = DashSet::with_hasher(S::default());
+                    if vec.len() < 32 {
+                        if vec.contains(&element) {
+                            return false;
+                        }
 
-                    for item in vec.drain(..) {
-                        large_set.insert(item);
+                        vec.push(element);
+
+                        return true;
                     }
 
-                    let result = large_set.insert(element);
+                    // full: upgrade to the large storage below
+                }
 
-                    drop(vec);
-                    drop(read);
+                TieredStorage::Large(set) => return set.insert(element),
+            }
+        }
 
-                    *self.0.write() = TieredStorage::Large(large_set);
+        // Upgrade to large storage when the threshold is exceeded. This is
+        // done under the exclusive lock and the tier is checked again: a
+        // concurrent insert (or iteration) must never work on a vector that
+        // has been drained but not yet replaced, otherwise its element is
+        // lost when the large set is installed.
+        let mut storage = self.0.write();
 
-                    result
-                } else {
+        let (result, upgraded) = match &mut *storage {
+            TieredStorage::Small(vec_lock) => {
+                let vec = vec_lock.get_mut();
+
+                if vec.len() < 32 {
                     if vec.contains(&element) {
                         return false;
                     }
 
                     vec.push(element);
 
-                    true
+                    return true;
                 }
+
+                let large_set = DashSet::with_hasher(S::default());
+
+                for item in vec.drain(..) {
+                    large_set.insert(item);
+                }
+
+                (large_set.insert(element), large_set)
             }
 
-            TieredStorage::Large(set) => set.insert(element),
-        }
+            TieredStorage::Large(set) => return set.insert(element),
+        };
+
+        *storage = TieredStorage::Large(upgraded);
+
+        result
     }
 
     fn remove_element(&self, element: &Self::Element) -> bool {
